@@ -323,7 +323,10 @@ def oracle(spec, case, before, res):
     else:
         changed = [k for k in ("decls", "tags", "fs") if before[k] != after[k]]
         if changed:
-            bad.append(("failed-but-changed", "state unchanged after %s" % oc,
+            kind = "failed-but-changed"
+            if (asked - removed) and removed:
+                kind = "failed-left-behind-needing-removed" if need2(g, removed, a_decl) else "failed-left-behind"
+            bad.append((kind, "state unchanged after %s" % oc,
                         {"removed": sorted(removed), "left_of_asked": sorted(asked - removed)},
                         "%s raised (%s: %s) after removing %s; %s of what was asked is still there%s" % (
                             label, oc, res.get("msg", "")[:80], sorted(removed), sorted(asked - removed),
@@ -560,18 +563,22 @@ def setup_ctx(ctx):
 def run(ctx):
     setup_ctx(ctx)
     ctx.check_theorems()
+    # the registered check models the code WITH the two fixes; the other variants of Model/Remove.v (pinned,
+    # skiponly) can be selected for cross-validation against the corresponding tree
+    variant = os.environ.get("C14_MODEL_VARIANT", "fixed")
+    ctx.extra["model_variant"] = variant
     # corpus first: each witness with its own command
     for inp in corpus_inputs():
         spec = inp["spec"]
         c = {k: inp[k] for k in ("target", "recursive", "check", "force")}
-        run_specs(ctx, [spec], nproc=1, cases_of=lambda s, c=c: [c])
-    run_specs(ctx, directed_specs())
-    n = ctx.size(60, 1200)
+        run_specs(ctx, [spec], nproc=1, cases_of=lambda s, c=c: [c], variant=variant)
+    run_specs(ctx, directed_specs(), variant=variant)
+    n = ctx.size(80, 1200)
     specs = [stackgen.gen_spec(ctx.rng) for _ in range(n)]
     for s in specs[:2]:
         ctx.sample({"products": s["products"], "shape": s["shape"], "commands": "every product x recursive x check x force"})
     for i in range(0, len(specs), 200):
-        run_specs(ctx, specs[i:i + 200])
+        run_specs(ctx, specs[i:i + 200], variant=variant)
     # shrink the first unknown failure of each kind so that the replay is readable
     seen = set()
     for f in list(ctx.failures):
